@@ -29,7 +29,7 @@ type Alpha struct {
 	Templates []string // deviation: setTemplate to each of these tags (when different from the current one)
 	Annots    []string // deviation: annotate "key=value" / "key-"
 	Kubectl   []string // deviation: kubectl-eds commands
-	PodDev    []string // deviation on pods: unready, restart:N, fail, unknown, waiting:Reason, unschedulable
+	PodDev    []string // deviation on pods: unready, restart:N, fail, unknown, waiting:Reason, unschedulable, quarantine
 	AddNodes  []string // deviation: "name" or "name:k=v,k=v"
 	DelNodes  bool     // deviation: delete any node
 	Taints    []string // deviation: taint any untainted node with effect
@@ -177,6 +177,10 @@ func (a *Alpha) Enabled(s *State) []Event {
 			case strings.HasPrefix(d, "waiting:"):
 				if p.Status.Phase != corev1.PodFailed && p.Status.Phase != corev1.PodUnknown && !IsReady(p) {
 					evs = append(evs, Event{K: "waiting", A: nn(p), B: strings.TrimPrefix(d, "waiting:"), Dev: dev})
+				}
+			case d == "quarantine": // the user hides a canary pod from its controller: the ExtendedDaemonSet's name label is removed
+				if p.Labels[v1.ExtendedDaemonSetNameLabelKey] != "" && p.Labels[v1.ExtendedDaemonSetReplicaSetCanaryLabelKey] == v1.ExtendedDaemonSetReplicaSetCanaryLabelValue {
+					evs = append(evs, Event{K: "quarantine", A: nn(p), Dev: dev})
 				}
 			case d == "unschedulable":
 				if p.Spec.NodeName == "" {
